@@ -24,6 +24,9 @@ func convertTWCC(feedback *rtcp.TransportLayerCC) []acknowledgement {
 		switch chunk := pc.(type) {
 		case *rtcp.RunLengthChunk:
 			for i := uint16(0); i < chunk.RunLength; i++ {
+				if offset >= int(feedback.PacketStatusCount) {
+					return acks // run length (or padded chunk) beyond the declared status count
+				}
 				seqNr := feedback.BaseSequenceNumber + uint16(offset) // nolint:gosec
 				offset++
 				switch chunk.PacketStatusSymbol {
@@ -35,6 +38,9 @@ func convertTWCC(feedback *rtcp.TransportLayerCC) []acknowledgement {
 						ecn:            0,
 					})
 				case rtcp.TypeTCCPacketReceivedSmallDelta, rtcp.TypeTCCPacketReceivedLargeDelta:
+					if recvDeltaIndex >= len(feedback.RecvDeltas) {
+						return acks // fewer deltas than received symbols
+					}
 					delta := feedback.RecvDeltas[recvDeltaIndex]
 					nextTimestamp = nextTimestamp.Add(time.Duration(delta.Delta) * time.Microsecond)
 					recvDeltaIndex++
@@ -55,6 +61,9 @@ func convertTWCC(feedback *rtcp.TransportLayerCC) []acknowledgement {
 			}
 		case *rtcp.StatusVectorChunk:
 			for _, s := range chunk.SymbolList {
+				if offset >= int(feedback.PacketStatusCount) {
+					return acks // padded chunk beyond the declared status count
+				}
 				seqNr := feedback.BaseSequenceNumber + uint16(offset) // nolint:gosec
 				offset++
 				switch s {
@@ -66,6 +75,9 @@ func convertTWCC(feedback *rtcp.TransportLayerCC) []acknowledgement {
 						ecn:            0,
 					})
 				case rtcp.TypeTCCPacketReceivedSmallDelta, rtcp.TypeTCCPacketReceivedLargeDelta:
+					if recvDeltaIndex >= len(feedback.RecvDeltas) {
+						return acks // fewer deltas than received symbols
+					}
 					delta := feedback.RecvDeltas[recvDeltaIndex]
 					nextTimestamp = nextTimestamp.Add(time.Duration(delta.Delta) * time.Microsecond)
 					recvDeltaIndex++
